@@ -9,7 +9,9 @@ from .express_base_vectors import express_base_vectors
 def convert_point(point: AppliedPoint, new_system: BaseCoordinateSystem) -> AppliedPoint:
     # Point coordinates change contravariantly
     conversion = express_base_scalars(new_system, point.system)
-    new_coordinates = [expr.subs(point.coordinates) for expr in conversion.values()]
+    new_coordinates = [
+        expr.subs(point.coordinates, simultaneous=True) for expr in conversion.values()
+    ]
     return AppliedPoint(new_coordinates, new_system)
 
 
